@@ -54,9 +54,19 @@ Values(op, by) ==
 (* HTTP methods are compared case-insensitively (the filter value may be written in any case) *)
 Norm(by, t) == IF by = "method" THEN Upper(t) ELSE t
 
+(* /parameters/<k>/name: the name of the operation's own k-th parameter AS THE DOCUMENT MEANS IT.  An operation record may    *)
+(* carry `params`, a sequence of [name : Text, via : "inline" | "ref"]; whether a parameter object is written in place or as *)
+(* a $ref to a reusable one (`via`) is not observable by a filter: expressions are evaluated on the resolved definition      *)
+P_params == <<"/","p","a","r","a","m","e","t","e","r","s","/">>
+P_name   == <<"/","n","a","m","e">>
+ParamPtr(k) == P_params \o <<k>> \o P_name
+ParamName(op, n) == IF "params" \in DOMAIN op /\ Len(op.params) >= n THEN <<"str", op.params[n].name>> ELSE <<"absent", <<>> >>
+
 (* value of the operation definition at a JSON pointer of the catalogue: <<kind, text>>, kind "absent" when it does not resolve *)
 Pointer(op, ptr) ==
-  CASE ptr = <<"/","o","p","e","r","a","t","i","o","n","I","d">> ->
+  CASE ptr = ParamPtr("0") -> ParamName(op, 1)
+    [] ptr = ParamPtr("1") -> ParamName(op, 2)
+    [] ptr = <<"/","o","p","e","r","a","t","i","o","n","I","d">> ->
            IF op.opid = <<>> THEN <<"absent", <<>> >> ELSE <<"str", op.opid>>
     [] ptr = <<"/","t","a","g","s","/","0">> ->
            IF op.tags = <<>> THEN <<"absent", <<>> >> ELSE <<"str", op.tags[1]>>
